@@ -18,12 +18,15 @@ PLANS = {
     "quick": [
         (SEEDS, [ALL, ALL], {}),
         (["empty", "wired"], [("io_lite", "init_lite")] * 4, {"vcap": 3}),
+        (SEEDS, [("construct",), ("construct", "io_lite", "init_lite", "nodelist")], {"vcap": 4}),
     ],
     "thorough": [
         (SEEDS, [ALL, ALL], {}),
         (SEEDS, [COLL, COLL, COLL], {"vcap": 6, "pair_cap": 3}),
         (SEEDS, [LIST, LIST, LIST], {"vcap": 6, "pair_cap": 3}),
         (["wired", "multi"], [("io", "init"), ("io", "init"), ("io", "init"), ("io", "init")], {"vcap": 4, "pair_cap": 2}),
+        (SEEDS, [("construct",), ("construct",) + ALL], {"vcap": 5}),
+        (SEEDS, [ALL, ("construct",)], {"vcap": 5}),
     ],
 }
 
